@@ -105,7 +105,7 @@ def norm_block(stmts):
     for s in stmts:
         norm_stmt(s)
         out.extend(split_assign(s))
-    return norm_loops(out)
+    return norm_index_loops(norm_loops(out))
 
 
 # ---- N5: counting loops written by hand → for … in reversed(range(len(X))) / enumerate(IT, c0)
@@ -194,6 +194,73 @@ def norm_loops(stmts):
             out[i:i + 2] = [new]
             continue
         i += 1
+    return out
+
+
+# ---- N6: index loops over the amplitude vector → `for k, a in enumerate(self.amplitudes, 1): [if a != 0:] …`
+def _index_iter(it, seqs):
+    """(sequence text, only_nonzero) when ``it`` enumerates the (non-zero) indices of one of ``seqs``"""
+    u = ast.unparse
+    if isinstance(it, ast.Call) and isinstance(it.func, ast.Attribute) and it.func.attr == "tolist" and not it.args:
+        it = it.func.value
+    if isinstance(it, ast.Call) and isinstance(it.func, ast.Name) and it.func.id == "range" and len(it.args) == 1:
+        x = _len_of(it.args[0])
+        if x is not None and u(x) in seqs:
+            return u(x), False
+    if isinstance(it, ast.Call) and u(it.func) in ("np.flatnonzero", "numpy.flatnonzero") and len(it.args) == 1 and u(it.args[0]) in seqs:
+        return u(it.args[0]), True
+    if isinstance(it, ast.Subscript) and u(it.slice) == "0" and isinstance(it.value, ast.Call) and u(it.value.func) in ("np.nonzero", "np.where", "numpy.nonzero", "numpy.where") \
+            and len(it.value.args) == 1:
+        a = it.value.args[0]
+        if u(a) in seqs:
+            return u(a), True
+        if isinstance(a, ast.Compare) and len(a.ops) == 1 and isinstance(a.ops[0], ast.NotEq) and u(a.left) in seqs and u(a.comparators[0]) in ("0", "0.0"):
+            return u(a.left), True
+    return None
+
+
+class _IndexSubst(ast.NodeTransformer):
+    def __init__(self, i, seqs, k, a):
+        self.i, self.seqs, self.k, self.a = i, seqs, k, a
+
+    def visit_Subscript(self, n):
+        if isinstance(n.ctx, ast.Load) and ast.unparse(n.value) in self.seqs and isinstance(n.slice, ast.Name) and n.slice.id == self.i:
+            return ast.copy_location(ast.Name(id=self.a, ctx=ast.Load()), n)
+        return self.generic_visit(n)
+
+    def visit_Name(self, n):
+        if n.id == self.i and isinstance(n.ctx, ast.Load):
+            return ast.copy_location(ast.BinOp(left=ast.Name(id=self.k, ctx=ast.Load()), op=ast.Sub(), right=ast.Constant(value=1)), n)
+        return n
+
+
+def norm_index_loops(stmts):
+    out = list(stmts)
+    seqs = {"self.amplitudes"}
+    for j, s in enumerate(out):
+        if isinstance(s, ast.Assign) and len(s.targets) == 1 and isinstance(s.targets[0], ast.Name) and ast.unparse(s.value) == "self.amplitudes" \
+                and sum(1 for t in out for n in ast.walk(t) if isinstance(n, ast.Name) and n.id == s.targets[0].id and isinstance(n.ctx, ast.Store)) == 1:
+            seqs.add(s.targets[0].id)
+        if not (isinstance(s, ast.For) and not s.orelse and isinstance(s.target, ast.Name)):
+            continue
+        r = _index_iter(s.iter, seqs)
+        if r is None:
+            continue
+        i = s.target.id
+        if _assigns(s.body, i) or _loads_after(out[j + 1:], i):
+            continue
+        # stores through the index (S[i] = …) are not a read-only mode loop
+        if any(isinstance(n, ast.Subscript) and isinstance(n.ctx, (ast.Store, ast.Del)) and ast.unparse(n.value) in seqs for t in s.body for n in ast.walk(t)):
+            continue
+        k, a = f"{i}_mode", f"{i}_amp"
+        body = [_IndexSubst(i, seqs, k, a).visit(t) for t in s.body]
+        if r[1]:
+            body = [ast.If(test=ast.Compare(left=ast.Name(id=a, ctx=ast.Load()), ops=[ast.NotEq()], comparators=[ast.Constant(value=0)]), body=body, orelse=[])]
+        it = ast.Call(func=ast.Name(id="enumerate", ctx=ast.Load()), args=[ast.parse("self.amplitudes", mode="eval").body, ast.Constant(value=1)], keywords=[])
+        new = ast.For(target=ast.Tuple(elts=[ast.Name(id=k, ctx=ast.Store()), ast.Name(id=a, ctx=ast.Store())], ctx=ast.Store()), iter=it, body=body, orelse=[], lineno=s.lineno)
+        ast.copy_location(new, s)
+        ast.fix_missing_locations(new)
+        out[j] = new
     return out
 
 
